@@ -360,6 +360,7 @@ class Ctx:
         self.inline = inline
         self.opaque_calls = set(opaque_calls)
         self.distinct = set()                             # frozenset({ref, ref}) of objects known not to alias
+        self.pairs = False                                # also combine two assumed facts when deciding a sign
         self.unit_norm = list(unit_norm)                  # tuples of atoms whose squares sum to 1
         self.consts = dict(consts or {})                  # atom -> known numeric value
 
@@ -408,6 +409,23 @@ class Ctx:
                     return '>0'
                 if c == 0:
                     best = best or '>=0'
+        if best is None and self.pairs:
+            # two assumed facts:  p = c + f1 + f2  =>  p <= c   (and symmetrically for a lower bound)
+            fs = [(x, False) for x in self.le0] + [(x, True) for x in self.lt0]
+            for i, (f1, s1) in enumerate(fs):
+                for f2, s2 in fs[i + 1:]:
+                    c = self.numval(p - f1 - f2)
+                    if c is not None:
+                        if c < 0 or (c == 0 and (s1 or s2)):
+                            return '<0'
+                        if c == 0:
+                            best = best or '<=0'
+                    c = self.numval(p + f1 + f2)
+                    if c is not None:
+                        if c > 0 or (c == 0 and (s1 or s2)):
+                            return '>0'
+                        if c == 0:
+                            best = best or '>=0'
         return best
 
 
